@@ -3433,17 +3433,45 @@ Proof.
         -- intros i Hi. destruct (HkT i Hi) as [Hk|Hk]; [left; exact Hk|right; lia].
 Qed.
 
+(* the code of a transparent query: jumps over the definitions *)
+Lemma transparent_steps : forall q, transparent q = true -> forall ce tp cur pc nv sn cq nv' sn', compg tco q ce tp cur pc nv sn = Some (cq, nv', sn') ->
+  code_at pc cq -> forall sc st fk vs n o g, steps (N sc pc st fk vs n o g) (N sc (pc + length cq) st fk vs n o g).
+Proof.
+  induction q; intros Ht ce tp cur pc nv sn cq nv' sn' Hc Hat sc st fk vs n oo g; simpl in Ht; try discriminate.
+  - simpl in Hc. inversion Hc; subst. simpl. rewrite Nat.add_0_r. apply steps_refl.
+  - apply andb_true_iff in Ht. destruct Ht as [H1 H2]. simpl in Hc.
+    match type of Hc with context [compg tco q1 ?ce0 ?t0 ?c0 ?p0 ?n0 ?s0] =>
+      destruct (compg tco q1 ce0 t0 c0 p0 n0 s0) as [[[ca n1] s1]|] eqn:Ea; [|discriminate] end.
+    destruct (compg tco q2 ce tp cur (pc + length ca) n1 s1) as [[[cb n2] s2]|] eqn:Eb; [|discriminate]. inversion Hc; subst.
+    destruct (code_at_app _ _ _ _ Hat) as [Hata Hatb]. rewrite app_length, Nat.add_assoc.
+    eapply steps_trans; [eapply IHq1; eauto|eapply IHq2; eauto].
+  - destruct (comp_def_inv _ _ _ _ _ _ _ _ _ _ _ _ Hc) as (_ & _ & cb & nvb & s1 & cr & Eb & Er & ->). cbv zeta in Eb, Er.
+    uncons Hat A0.
+    assert (Hatr : code_at (pc + 2 + length (prelude sn ps) + length cb + 1) cr).
+    { intros i x Hi. replace (pc + 2 + length (prelude sn ps) + length cb + 1 + i) with (S pc + (1 + (length (prelude sn ps) + (length cb + S i)))) by lia. apply Hat.
+      simpl. rewrite nth_error_app2 by lia. replace (length (prelude sn ps) + (length cb + S i) - length (prelude sn ps)) with (length cb + S i) by lia.
+      rewrite nth_error_app2 by lia. replace (length cb + S i - length cb) with (S i) by lia. exact Hi. }
+    eapply steps_step; [eapply st_jump; exact A0|].
+    match goal with |- Mach.steps _ _ _ (Mach.N _ ?b _ _ _ _ _ _) => replace b with (pc + 2 + length (prelude sn ps) + length cb + 1 + length cr) by (simpl; rewrite !app_length; simpl; lia) end.
+    eapply IHq2; eauto.
+Qed.
+
 Lemma implT_pipe : forall a b, Impl a -> ImplT a -> ImplT b -> ImplT (QPipe a b).
 Proof.
   intros a b IHa IHaT IHbT Htco scR Hne idf oF rpc stampF outerF pe nvF cj sc1 A1 Hcj ce pc nv sn cq nv' sn' Hc Hat Hlb Hnv pr A2 cx Hjmp rho v vs n o g P
          Hsc Hpc Hklt HE Hn Ho Hlen Hct Hst Hoff Hko Hown Hunp HK Hgh HK0 HS HP.
-  simpl in Hc. destruct (emptycode b) eqn:Eb.
-  - (* the right side emits no code: the left side is in tail position *)
+  cbn -[transparent] in Hc. destruct (transparent b) eqn:Eb.
+  - (* the right side only jumps over definitions: the left side is in tail position *)
     destruct (compg tco a ce (Some (pe, Some cj)) idf pc nv sn) as [[[ca n1] s1]|] eqn:Ec; [|discriminate].
-    rewrite (comp_empty tco b Eb) in Hc. inversion Hc; subst cq nv' sn'. clear Hc.
-    rewrite app_nil_r in *. rewrite (den_pipe_r nt _ a b Eb).
-    exact (IHaT Htco scR Hne idf oF rpc stampF outerF pe nvF cj A1 Hcj ce pc nv sn ca n1 s1 Ec Hat Hlb Hnv pr A2 cx Hjmp rho v vs n o g P
+    destruct (compg tco b ce (Some (pe, Some cj)) idf (pc + length ca) n1 s1) as [[[cb n2] s2]|] eqn:Ec0; [|discriminate].
+    inversion Hc; subst cq nv' sn'. clear Hc.
+    destruct (code_at_app _ _ _ _ Hat) as [Hata Hatb].
+    pose proof (comp_nvars _ _ _ _ _ _ _ _ _ _ _ Ec0) as Hn2. rewrite (transparent_nvars b Eb) in Hn2.
+    rewrite (den_pipe_rt nt _ a b Eb).
+    refine (IHaT Htco scR Hne idf oF rpc stampF outerF pe nvF cj A1 Hcj ce pc nv sn ca n1 s1 Ec Hata Hlb ltac:(lia) pr A2 cx _ rho v vs n o g P
              Hsc Hpc Hklt HE Hn Ho Hlen Hct Hst Hoff Hko Hown Hunp HK Hgh HK0 HS HP).
+    intros w f vs0 n0' o0 g0. eapply steps_trans; [exact (transparent_steps b Eb _ _ _ _ _ _ _ _ _ Ec0 Hatb _ _ _ _ _ _ _)|].
+    rewrite app_length, Nat.add_assoc in Hjmp. apply Hjmp.
   - destruct (comp a ce idf pc nv sn) as [[[ca n1] s1]|] eqn:Ec; [|discriminate].
     destruct (compg tco b ce (Some (pe, Some cj)) idf (pc + length ca) n1 s1) as [[[cb n2] s2]|] eqn:Ec0; [|discriminate].
     inversion Hc; subst cq nv' sn'. clear Hc.
@@ -3827,7 +3855,7 @@ Qed.
    mode they compile, if at all, to the code of the ordinary mode *)
 Ltac nt_comp :=
   let H := fresh "H" in
-  intros ? ? ? ? ? ? ? ? H; cbn -[Nat.add Nat.ltb Nat.eqb ce_lt prelude param_env param_slots comp_args tl_body emptycode] in H |- *;
+  intros ? ? ? ? ? ? ? ? H; cbn -[Nat.add Nat.ltb Nat.eqb ce_lt prelude param_env param_slots comp_args tl_body emptycode transparent] in H |- *;
   try exact H;
   repeat match goal with
   | H : context [match compg ?t ?q0 ?ce0 ?tp ?c ?p ?n ?s with _ => _ end] |- _ =>
